@@ -239,6 +239,13 @@ func (c *Collection) Pull(ctx context.Context, opts ...ReadOption) <-chan *Colle
 	go func() {
 		defer close(send)
 
+		// held tracks the value the subscriber holds for each id, so that equivalence is judged against
+		// what was last emitted and a run of small changes can't drift unnoticed.
+		var held map[string]proto.Message
+		if c.equivalence != nil {
+			held = make(map[string]proto.Message)
+		}
+
 		if len(currentValues) > 0 {
 			sort.Slice(currentValues, func(i, j int) bool {
 				return currentValues[i].id < currentValues[j].id
@@ -254,6 +261,9 @@ func (c *Collection) Pull(ctx context.Context, opts ...ReadOption) <-chan *Colle
 					LastSeedValue: i == lastIndex,
 				}
 				change = change.filter(filter)
+				if held != nil {
+					held[change.Id] = change.NewValue
+				}
 				select {
 				case <-ctx.Done():
 					return
@@ -269,8 +279,19 @@ func (c *Collection) Pull(ctx context.Context, opts ...ReadOption) <-chan *Colle
 				continue
 			}
 			change = change.filter(filter)
-			if c.equivalence != nil && c.equivalence.Compare(change.OldValue, change.NewValue) {
-				continue
+			if c.equivalence != nil {
+				last, ok := held[change.Id]
+				if !ok {
+					last = change.OldValue
+				}
+				if c.equivalence.Compare(last, change.NewValue) {
+					continue
+				}
+				if change.NewValue == nil {
+					delete(held, change.Id)
+				} else {
+					held[change.Id] = change.NewValue
+				}
 			}
 			select {
 			case send <- change:
